@@ -236,9 +236,42 @@ func isParamOrSpill(v ssa.Value, param *ssa.Parameter) bool {
 	}
 	if a, ok := v.(*ssa.Alloc); ok {
 		st := allocStores(a)
-		return len(st) == 1 && st[0].Val == ssa.Value(param)
+		return len(st) == 1 && st[0].Val == ssa.Value(param) && spillUnmodified(a)
 	}
 	return false
+}
+
+// spillUnmodified: the local copy of a parameter is only read: no field of it is stored to and its address
+// is not handed out.
+func spillUnmodified(a *ssa.Alloc) bool {
+	for _, rf := range refsOf(a) {
+		switch x := rf.(type) {
+		case *ssa.Store:
+			if x.Addr != ssa.Value(a) {
+				return false
+			}
+		case *ssa.UnOp, *ssa.DebugRef:
+		case *ssa.FieldAddr:
+			for _, rr := range refsOf(x) {
+				switch y := rr.(type) {
+				case *ssa.UnOp, *ssa.DebugRef:
+				case *ssa.FieldAddr:
+					for _, r3 := range refsOf(y) {
+						if _, ok := r3.(*ssa.UnOp); !ok {
+							if _, ok := r3.(*ssa.DebugRef); !ok {
+								return false
+							}
+						}
+					}
+				default:
+					return false
+				}
+			}
+		default:
+			return false
+		}
+	}
+	return true
 }
 
 // copyOfParam: v is the parameter or a load of its spill.
